@@ -36,13 +36,15 @@ func VerifC15Trunc() {
 	prefix := last.len - cidLen - dataLen // width of the length prefix (1 or 2)
 	// cut = number of bytes of the last section that are still present
 	cuts := []uint64{
-		prefix,                  // right after the length prefix        (nothing of the CID)
-		prefix + 2,              // inside the CID prefix
-		prefix + 4,              // CID prefix complete, digest missing
-		prefix + 20,             // inside the digest
-		prefix + cidLen,         // right after the CID                   (nothing of the data)
-		prefix + cidLen + 1,     // inside the data
-		last.len - 1,            // one byte short
+		prefix,              // right after the length prefix (nothing of the CID)
+		prefix + 1,          // after the CID version
+		prefix + 2,          // after the CID codec
+		prefix + 3,          // after the multihash code
+		prefix + 4,          // CID prefix complete, digest missing
+		prefix + 20,         // inside the digest
+		prefix + cidLen,     // right after the CID (nothing of the data)
+		prefix + cidLen + 1, // inside the data
+		last.len - 1,        // one byte short
 	}
 	if prefix > 1 {
 		cuts = append(cuts, 1) // inside the length prefix
@@ -52,14 +54,21 @@ func VerifC15Trunc() {
 	img = img[:last.off+cut]
 
 	// Known finding C15-trunc-clean-eof: when the file ends exactly after a section's length prefix,
-	// exactly before the CID digest or exactly after the CID, the library read that finds nothing
-	// reports a bare io.EOF, which Run takes for the regular end of the CAR.
-	silent := cut == prefix || cut == prefix+4 || cut == prefix+cidLen
+	// exactly after one of the four one-byte varints of the CID prefix, or exactly after the CID, the
+	// library read that finds nothing reports io.EOF (bare, or inside cid.ErrInvalidCid, which
+	// unwraps), and Run takes every error that errors.Is io.EOF for the regular end of the CAR.
+	silent := (cut >= prefix && cut <= prefix+4) || cut == prefix+cidLen
 	verifKnownFinding("C15-trunc-clean-eof", silent)
 
 	cb, got := c15Recorder(false)
 	oa := NewObjectAccumulator(c15NewReader(img, H), iplddecoders.KindBlock, cb, ign...)
 	err := oa.Run(context.Background())
+	if verifParam("exact", 0) == 1 {
+		// diagnostic twin: the finding region is exact (used once to validate the region against the native run)
+		verifAssert((err == nil) == silent, tag+": region of C15-trunc-clean-eof is not exact")
+		verifReach("end")
+		return
+	}
 	verifAssert(err != nil, tag+": Run reports success on a CAR whose last section is cut off")
 	c15CheckRecord(tag, img, secs, 0, k-1, kinds, ign, *got, false)
 	verifReach("end")
@@ -94,5 +103,43 @@ func VerifC15Stop() {
 	err := oa.Run(context.Background())
 	_ = err
 	verifAssert(n == stopAt+1, tag+": callbacks were made after the callback asked to stop")
+	verifReach("end")
+}
+
+// C15.cancel — the context handed to Run is cancelled while the traversal is under way (here: by the
+// callback for group number cancel_at, i.e. at an arbitrary point of the reader's progress relative
+// to the flusher). Run must return; nothing delivered before may be wrong.
+func VerifC15Cancel() {
+	const tag = "C15.cancel"
+	verifC15QueueCap = verifParam("queuecap", 1)
+	verifC15ObjectCap = verifParam("objcap", 1)
+	maxK := verifParam("maxk", 2)
+	k := 1 + verifChoice("sections", maxK)
+	lens := c15DataLens[0]
+	H := 11
+	kinds := make([]byte, k)
+	for i := range kinds {
+		kinds[i] = byte(iplddecoders.KindBlock)
+	}
+	img, secs := c15Image(H, k, lens, kinds)
+	cancelAt := verifChoice("cancel_at", k)
+	ctx, cancel := context.WithCancel(context.Background())
+	rec, got := c15Recorder(false)
+	n := 0
+	cb := func(parent *ObjectWithMetadata, children []ObjectWithMetadata) error {
+		n++
+		if n-1 == cancelAt {
+			cancel()
+		}
+		return rec(parent, children)
+	}
+	// Known finding C15-errstop-deadlock (second way in): the flusher goroutine also returns on
+	// ctx.Done() while buffers that Run has already counted in flushWg are still queued.
+	verifKnownFinding("C15-errstop-deadlock", true)
+	oa := NewObjectAccumulator(c15NewReader(img, H), iplddecoders.KindBlock, cb)
+	err := oa.Run(ctx)
+	_ = err
+	// whatever was delivered is a correct prefix of the traversal
+	c15CheckRecord(tag, img, secs, 0, len(*got), kinds, nil, *got, false)
 	verifReach("end")
 }
